@@ -888,8 +888,9 @@ def make_scheduler(text, workdir, fname='kmod.f90'):
     from loki import Scheduler, config as loki_config
     try:
         loki_config['regex-frontend-timeout'] = 600
+        import logging
         from loki import logging as loki_logging
-        loki_logging.set_log_level('ERROR')     # pylint: disable=no-member
+        loki_logging.logger.setLevel(logging.ERROR)
     except Exception:  # pylint: disable=broad-except
         pass
     os.makedirs(workdir, exist_ok=True)
@@ -951,6 +952,7 @@ def pad_stack(text):
 # ============================================================================================ build + judge
 FFLAGS_BASE = ['-O0', '-w', '-fno-range-check', '-ffree-line-length-none', '-fcray-pointer']
 FFLAGS_CHECK = ['-g', '-fcheck=bounds', '-fsanitize=address']
+ZERO_STACK = re.compile(r"Index '1' of dimension 1 of array 'zstack' above upper bound of 0")
 
 
 def compile_run(workdir, tag, sources, flags=(), timeout=60):
@@ -1017,6 +1019,12 @@ def behaviour_check_multi(ctx, label, cases, variants, transform, *, entry='kern
         inputs = cases[res['idx']][1]
         st, out, err = compile_run(ctx.work, f"{label}-{res['idx']}-{v}", list(res['srcs'][v]) + [('drv.f90', res['drv'])],
                                    flags=FFLAGS_CHECK if check_flags else ())
+        if st == 'runtime-error' and ZERO_STACK.search(err):
+            # exemption: the pool allocator takes LOC(ZSTACK(1, b)) of a ZERO-size stack (no temporaries left): only the
+            # address is formed, nothing is stored.  Judge the build without -fcheck=bounds (AddressSanitizer stays on).
+            st, out, err = compile_run(ctx.work, f"{label}-{res['idx']}-{v}", list(res['srcs'][v]) + [('drv.f90', res['drv'])],
+                                       flags=[f_ for f_ in FFLAGS_CHECK if f_ != '-fcheck=bounds'])
+            ctx.cover['exempt_zero_size_stack_address'] = ctx.cover.get('exempt_zero_size_stack_address', 0) + 1
         res['new'][v] = (st, F.parse_output(out, len(inputs)) if st == 'ok' else None, err)
 
     with cf.ThreadPoolExecutor(max_workers=workers) as ex:
@@ -1113,6 +1121,15 @@ def behaviour_check_multi(ctx, label, cases, variants, transform, *, entry='kern
     return results, fails, legal
 
 
+def signature(kind, msg):
+    """lib_fm.failure_signature with identifiers and type names abstracted (the argument / stack that is hit first
+    depends on the program, the defect class does not)."""
+    sig = F.failure_signature(kind, msg)
+    sig = re.sub(r"[‘'`]\w+[’']", "'X'", sig)
+    sig = re.sub(r'passed \w+\(N\) to \w+\(N\)', 'passed T to T', sig)
+    return sig
+
+
 def shape(prog):
     """Normal-form description of a (shrunk) program: statement kinds + structural markers of the SCC domain."""
     marks = set()
@@ -1139,7 +1156,7 @@ def shape(prog):
     return '+'.join([F.stmt_kinds(prog)] + sorted(marks))
 
 
-def report_failures_multi(ctx, prop, cases, results, fails, transform, *, budget=4, shrink=True):
+def report_failures_multi(ctx, prop, cases, results, fails, transform, *, budget=4, shrink=True, shrink_all=False):
     """Per variant: group by failure signature; key = <prop>:<variant>:<signature> and, for wrong output, the shape of
     the (shrunk) program.  Build failures / crashes / exceptions are classes of their own: their key does not depend on
     the program.  `budget` = total number of shrink rounds (each re-runs the whole check on up to 12 candidates)."""
@@ -1148,7 +1165,7 @@ def report_failures_multi(ctx, prop, cases, results, fails, transform, *, budget
     for v, fl in fails.items():
         groups = {}
         for idx, kind, msg in fl:
-            groups.setdefault(F.failure_signature(kind, msg), []).append((idx, kind, msg))
+            groups.setdefault(signature(kind, msg), []).append((idx, kind, msg))
         if groups:
             ctx.cover.setdefault('failure_groups', {})[v] = {k: len(m) for k, m in groups.items()}
         for sig, members in sorted(groups.items()):
@@ -1159,14 +1176,14 @@ def report_failures_multi(ctx, prop, cases, results, fails, transform, *, budget
         idx, kind, msg = min(members, key=lambda m: len(results[m[0]]['text']))
         prog, inputs = cases[idx]
         small = prog
-        while shrink and budget > 0:
+        while shrink and budget > 0 and (kind == 'output' or shrink_all):
             budget -= 1
             cands = F.removal_candidates(small, limit=12)
             if not cands:
                 break
             print(f'[{prop}] shrinking {v} {sig[:60]} ({len(cands)} candidates, {budget} rounds left)', file=sys.stderr)
             _, fl2, _ = behaviour_check_multi(ctx, 'shrink', [(c, inputs) for c in cands], [v], transform)
-            hit = {i: F.failure_signature(k2, m2) for i, k2, m2 in fl2[v]}
+            hit = {i: signature(k2, m2) for i, k2, m2 in fl2[v]}
             nxt = next((c for i, c in enumerate(cands) if hit.get(i) == sig), None)
             if nxt is None:
                 break
